@@ -550,6 +550,8 @@ def classify(item, got, exp, doc, ctxnode, known):
     for u, nz, key in ((True, False, "K6"), (False, True, "K13"), (True, True, "K6")):
         if u and not (docnb or any(NONBMP(s) for s in strs)):
             continue
+        if key == "K6" and "K6" not in known and name in ("str:padding", "str:align"):
+            key = "K6x"      # K6 is repaired for the core functions (cf87ee6 ...); the two EXSLT functions still count units
         if key not in known:
             continue
         alt = ref_eval(item, doc, ctxnode, units=u, negzero=nz)
@@ -565,8 +567,8 @@ def classify(item, got, exp, doc, ctxnode, known):
                     if not isinstance(alt, tuple) and not isinstance(got, tuple) and same_value(got, alt):
                         return "K-C02x-3"
     if name in ("str:padding", "str:align") and any(NONBMP(s) for s in strs) and isinstance(got, tuple) and got[0] == "err" \
-            and "surrogate" in got[1] and "K6" in known:
-        return "K6"      # a code-unit cut through a surrogate pair cannot even be serialised
+            and "surrogate" in got[1] and ("K6" in known or "K6x" in known):
+        return "K6" if "K6" in known else "K6x"      # a code-unit cut through a surrogate pair cannot even be serialised
     return None
 
 
@@ -840,7 +842,7 @@ def run_part(ctx):
         return
     known = {k["key"]: k for k in ctx.known.for_property(PID)}
     for k in ctx.known.for_property("C02"):
-        if k["key"] in ("K6", "K13") or k["key"].startswith("K-C02x"):
+        if k["key"] in ("K6", "K6x", "K13") or k["key"].startswith("K-C02x"):
             known[k["key"]] = k
     for k in ctx.known.for_property("C03"):
         if k["key"] in ("K-new-1", "K-new-2"):
